@@ -147,6 +147,19 @@ func (wg *WeightedAuthorizationModelGraph) AssignWeights() error {
 			return fmt.Errorf("%w: %d tuple cycles found without resolution", ErrTupleCycle, len(tupleCyles))
 		}
 	}
+
+	// a relation or an operator in a tuple cycle that never reaches a terminal type ends up without weights
+	nodeIDs := make([]string, 0, len(wg.nodes))
+	for nodeID := range wg.nodes {
+		nodeIDs = append(nodeIDs, nodeID)
+	}
+	slices.Sort(nodeIDs)
+	for _, nodeID := range nodeIDs {
+		node := wg.nodes[nodeID]
+		if (node.nodeType == SpecificTypeAndRelation || node.nodeType == OperatorNode) && len(node.weights) == 0 {
+			return fmt.Errorf("%w: %s node does not have any terminal type to reach to", ErrInvalidModel, node.uniqueLabel)
+		}
+	}
 	return nil
 }
 
